@@ -880,7 +880,7 @@ struct Digit {
             } else {
                 stream += DigitUtils::DigitChar::Zero;
 
-                if (format.Type == RealFormatType::Fixed) {
+                if ((format.Type == RealFormatType::Fixed) && (format.Precision != 0)) {
                     stream += DigitUtils::DigitChar::Dot;
                     insertZerosLarge(stream, format.Precision);
                 }
@@ -1155,17 +1155,19 @@ struct Digit {
         stream.Reverse(started_at);
         stream.StepBack(index - started_at);
 
+        // Precision 0 is like "%.0f": no decimal point.
         if QENTEM_CONST_EXPRESSION (Fixed_T) {
-            if ((dot_index == index) || ((stream.Length() - started_at) == SizeT{1}) ||
-                (!fraction_only && power_increased)) {
-                stream += DigitUtils::DigitChar::Dot;
-                insertZerosLarge(stream, precision);
-            } else if (fraction_only) {
-                insertZerosLarge(
-                    stream, SizeT32(precision -
-                                    SizeT32(stream.Length() - (started_at + SizeT{2})))); // 2 is the length of '0.'.
-            } else {
-                insertZerosLarge(stream, SizeT32(precision - (dot_index - index)));
+            if (precision != 0) {
+                if ((dot_index == index) || ((stream.Length() - started_at) == SizeT{1}) ||
+                    (!fraction_only && power_increased)) {
+                    stream += DigitUtils::DigitChar::Dot;
+                    insertZerosLarge(stream, precision);
+                } else if (fraction_only) {
+                    insertZerosLarge(stream, SizeT32(precision - SizeT32(stream.Length() -
+                                                                         (started_at + SizeT{2})))); // 2 is the length of '0.'.
+                } else {
+                    insertZerosLarge(stream, SizeT32(precision - (dot_index - index)));
+                }
             }
         }
     }
